@@ -221,7 +221,7 @@ theorem buildStoreAux_mono (ns : List Node) (i : NodeId) (s : Store) (m t : Node
       simp only [buildStoreAux]
       exact ih _ _ ((mem_targets_foldl _ _ _ _ _).mpr (Or.inl h))
     | port => exact ih _ _ h
-    | integer _ => exact ih _ _ h
+    | integer _ _ => exact ih _ _ h
     | command _ _ => exact ih _ _ h
 
 theorem buildStoreAux_table (ns : List Node) (i : Nat) (s : Store) (j : Nat) (r : Reg)
